@@ -42,6 +42,9 @@ type serverSocket struct {
 	closeOnce sync.Once
 	debug     Debugger
 
+	// Received events are handled in the order they were sent in.
+	packetRunner orderedRunner
+
 	eventHandlers         *eventHandlerStore
 	errorHandlers         *handlerStore[*ServerSocketErrorFunc]
 	disconnectingHandlers *handlerStore[*ServerSocketDisconnectingFunc]
